@@ -534,7 +534,7 @@ def fit_formula(rep, prog, rule):
                 continue
             for jx, st in enumerate(blk["s"]):
                 if st[0] == "a" and st[2][0] == "agg" and st[2][1] == "adt" and \
-                        str(st[2][2]).endswith("crop_box::CropBox"):
+                        str(st[2][2]).rsplit("::", 1)[-1] == "CropBox":
                     ops = st[2][4]
                     if len(ops) >= 2 and all(o[0] == "k" for o in ops[:2]):
                         continue
@@ -555,7 +555,7 @@ def fit_formula(rep, prog, rule):
         rep.unk(rule, "crop box", f.loc, "the CropBox aggregate was not found")
         return
     b, jx, st = agg
-    adt = [k for k in prog.adts if k.endswith("crop_box::CropBox")]
+    adt = prog.adt_ids("CropBox")
     fields = [x[0] for x in prog.adts[adt[0]]["variants"][0]["fields"]] if adt else ["left", "top", "width", "height"]
     sym = Sym(g)
     P = Poly(sym)
@@ -700,7 +700,7 @@ def quantised_untouched(rep, prog, rule):
     n = 0
     for nm in ("convolution::optimisations::Normalizer16::new",
                "convolution::optimisations::Normalizer32::new"):
-        fs = [f for f in prog.fns.values() if f.name == nm]
+        fs = [f for f in prog.fns.values() if f.name == nm] or prog._by_tail(nm)
         if len(fs) != 1:
             rep.unk(rule, nm.rsplit("::", 2)[-2] + "|anchor", "", "constructor not found")
             continue
